@@ -62,7 +62,7 @@ def handleSyscall(manifest):
     ], "hextb handleSyscall", manifest)
     leftover_check(b, "handleSyscall")
     manifest.append({"unit": "hextb handleSyscall", "rewritten": c, "dropped": ["trace printing (3 blocks)"]})
-    return "static void handleSyscall(Syscall syscall, int *exitCode, bool trace) " + b + "\n"
+    return re.sub(r"\b(exitCode|trace|maxCycles)\b", r"tb_\1", "static void handleSyscall(Syscall syscall, int *exitCode, bool trace) " + b + "\n")
 
 
 def run_parts(manifest):
@@ -109,10 +109,21 @@ def run_parts(manifest):
         raise ExtractionError("hextb run(): unconverted testbench access left in loop body")
     cond_c = cond.replace("!contextp->gotFinish()", "!tb_gotFinish")
     manifest.append({"unit": "hextb run", "prologue": stmts, "loop_condition": cond, "dropped": ["trace printing block", "top->final()"]})
+    # the loop body in two halves at the system-call sampling `if` (C06 states its relation between them)
+    ms = re.search(r"\n[ \t]*// Handle syscalls\s*\n[ \t]*if \(S\.TOP\.i_clk && S\.TOP\.o_syscall_valid\) \{", body)
+    if not ms:
+        raise ExtractionError("hextb run(): system-call sampling `if` not found in the loop body")
+    head = body[:ms.start()] + "\n}"
+    tail = "{" + body[ms.start():]
     text = ("static uint64_t cycle_count; static int exitCode; static uint64_t tb_time; static bool tb_break, tb_gotFinish, trace; static size_t maxCycles;\n"
             "static void tb_prologue(void) {\n  cycle_count = 0; exitCode = 0;\n  %s\n}\n"
             "#define TB_RUN_COND (%s)\n"
-            "static void tb_tick(void) %s\n") % (pro_c, cond_c, body)
+            "static void tb_tick_head(void) %s\n"
+            "static void tb_tick_tail(void) %s\n"
+            "/* one iteration of run()'s loop = head; tail (the body split at the sampling `if`, nothing dropped in between) */\n"
+            "static void tb_tick(void) { tb_tick_head(); tb_tick_tail(); }\n") % (pro_c, cond_c, head, tail)
+    # hextb's locals get a tb_ prefix so that the unit can be combined with the extracted hexsim (which has exitCode, trace(), maxCycles)
+    text = re.sub(r"\b(exitCode|trace|maxCycles)\b", r"tb_\1", text)
     return text, stmts
 
 
